@@ -120,6 +120,10 @@ func TestConc(t *testing.T) {
 	ctx := context.Background()
 
 	for si, stack := range stacks() {
+		if stack == "bolt-faulty" { // injected failures are judged in the sequential replay (and by the hook traces)
+			continue
+		}
+
 		for bi, beh := range behs {
 			func() {
 				sub := &subT{TB: t}
